@@ -114,6 +114,12 @@ def ev(e, ctx):
         return ctx.inp(e[1])
     if op == 'ln':
         return ctx.line(e[1])
+    if op == 'lnget':                   # v.get(ref, default): Mapping API of the accessor, still a read
+        return ctx.line_get(e[1], e[2])
+    if op == 'inget':
+        return ctx.inp_get(e[1], e[2])
+    if op == 'has':                     # ref in v
+        return ctx.line_has(e[1])
     if op == 'add':
         return num(ev(e[1], ctx)) + num(ev(e[2], ctx))
     if op == 'sub':
@@ -183,7 +189,7 @@ WRONG_KINDS = {
     'int': ['bool', 'float', 'myint', 'str', 'boolF', 'float0', 'myint0'],
     'bool': ['int', 'str', 'int0', 'float0'],
     'str': ['int', 'float', 'bytes', 'int0', 'bytes0'],
-    'enum': ['otherenum', 'membername', 'int', 'int0', 'boolF'],
+    'enum': ['otherenum', 'membername', 'int', 'int0', 'boolF', 'twinenum'],
 }
 
 
@@ -226,6 +232,8 @@ def raw_python_value(raw, line, ctx):
         return ctx.other_enum_member(line.get('enum'))
     if w == 'membername':
         return ctx.enum_member_name(line.get('enum'))
+    if w == 'twinenum':
+        return ctx.twin_enum_member(line.get('enum'))
     raise core.HarnessError(w)
 
 
@@ -244,6 +252,15 @@ class RealCtx(object):
     def line(self, ref):
         return self.v[ref]
 
+    def line_get(self, ref, default):
+        return self.v.get(ref, default)
+
+    def inp_get(self, ref, default):
+        return self.i.get(ref, default)
+
+    def line_has(self, ref):
+        return ref in self.v
+
     def notimpl(self):
         self.s.not_implemented()
 
@@ -258,6 +275,12 @@ class RealCtx(object):
 
     def enum_member_name(self, ename):
         return list(self.enums[ename])[0].name
+
+    def twin_enum_member(self, ename):
+        # a member of a *different* enumeration class that carries the same display name and member names
+        real = self.enums[ename]
+        twin = hb_enum.make(ename, {m.name: m.value for m in real})
+        return list(twin)[0]
 
 
 REGEX = '^[a-c]{2}[0-9]$'
